@@ -20,6 +20,9 @@ import Golem.Driver.C18
 import Golem.Driver.C19
 import Golem.Driver.C20
 import Golem.Driver.Lockstep
+import Golem.Driver.Unbound
+import Golem.Driver.Timed
+import Golem.Driver.ForkFold
 
 def main (args : List String) : IO UInt32 := do
   match args with
@@ -44,4 +47,7 @@ def main (args : List String) : IO UInt32 := do
   | ["C19"] => Golem.Driver.C19.main; return 0
   | ["C20"] => Golem.Driver.C20.main; return 0
   | ["lockstep"] => Golem.Driver.Lockstep.main; return 0
+  | ["unbound"] => Golem.Driver.Unbound.main; return 0
+  | ["timed"] => Golem.Driver.Timed.main; return 0
+  | ["forkfold"] => Golem.Driver.ForkFold.main; return 0
   | _ => IO.eprintln "usage: oracle <C01..C20>"; return 2
